@@ -8,12 +8,14 @@ import verif_probes as vp
 
 LOG: list = []      # observations, in execution order
 EXEC: list = [0]    # number of model calls executed (any probe of this module)
+KEEP: list = []     # the detector objects seen (kept alive so that id() identifies the run an observation belongs to)
 
 SENTINEL = -1       # "holds something that is not a constant integer frame" (only expected in junk)
 
 
 def reset():
     LOG.clear()
+    KEEP.clear()
     EXEC[0] = 0
 
 
@@ -68,9 +70,27 @@ def clock_rp(detector) -> dict:
                 is_last_readout=bool(rp.is_last_readout))
 
 
+def _hx(v) -> str:
+    v = float(v)
+    return "nan" if v != v else v.hex()
+
+
+def rp_public(detector):
+    """Public state of the ReadoutProperties object the detector carries (None: no readout defined)."""
+    if not detector.is_dynamic:
+        return None
+    rp = detector.readout_properties
+    return dict(times=[_hx(t) for t in rp.times], steps=[_hx(t) for t in rp.steps], num=int(rp.num_steps),
+                start=_hx(rp.start_time), nd=bool(rp.non_destructive), time=_hx(rp.time),
+                step=_hx(rp.time_step), count=int(rp.pipeline_count))
+
+
 def observe(detector, where="first"):
     EXEC[0] += 1
-    LOG.append(dict(where=where, clock=vp.clock(detector), clock_rp=clock_rp(detector), buckets=buckets(detector)))
+    if not any(d is detector for d in KEEP):
+        KEEP.append(detector)
+    LOG.append(dict(where=where, clock=vp.clock(detector), clock_rp=clock_rp(detector), buckets=buckets(detector),
+                    det=id(detector), rp_times=[_hx(t) for t in detector.readout_properties.times]))
 
 
 def _source():
